@@ -230,6 +230,13 @@ void fb_inv_exgcd(fb_t c, const fb_t a) {
 		return;
 	}
 
+	if (fb_bits(a) == 1) {
+		/* The loop tests u = 1 only after a reduction step and would return
+		 * the unreduced z^m + f(z) + 1 for a = 1. */
+		fb_set_dig(c, 1);
+		return;
+	}
+
 	RLC_TRY {
 		dv_new(_u);
 		dv_new(_v);
